@@ -29,6 +29,26 @@ type Manager struct {
 	readOnlyTxTTL  time.Duration
 	readWriteTxTTL time.Duration
 	idleTxTimeout  time.Duration
+
+	// Asked before a transaction applies its writes; see SetWriteGuard
+	writeGuard atomic.Value // of func() error
+}
+
+// SetWriteGuard installs a function that every read-write transaction calls
+// right before its commit applies the buffered writes. A non-nil error refuses
+// the commit: nothing is applied and Commit returns that error. The engine uses
+// it so that a transaction begun before the engine was switched to read-only
+// mode cannot write afterwards.
+func (m *Manager) SetWriteGuard(guard func() error) {
+	m.writeGuard.Store(guard)
+}
+
+// checkWriteGuard returns the guard's verdict, nil without a guard
+func (m *Manager) checkWriteGuard() error {
+	if guard, ok := m.writeGuard.Load().(func() error); ok && guard != nil {
+		return guard()
+	}
+	return nil
 }
 
 // NewManager creates a new transaction manager with default TTL settings
@@ -84,6 +104,7 @@ func (m *Manager) BeginTransaction(readOnly bool) (Transaction, error) {
 		buffer:         NewBuffer(),
 		rwLock:         &m.txLock,
 		stats:          m,
+		writeGuard:     m.checkWriteGuard,
 		creationTime:   now,
 		lastActiveTime: now,
 		ttl:            ttl,
